@@ -37,7 +37,7 @@ ITEM_HARNESS = {
     'ram_bundle::RamBundle::iter_modules': ['ram_bundle'], 'ram_bundle::RamBundle::get_module': ['ram_bundle'], 'ram_bundle::RamBundle::module_count': ['ram_bundle'],
     'ram_bundle::RamBundle::startup_code': ['ram_bundle'], 'ram_bundle::RamBundle::parse_indexed_from_slice': ['ram_bundle'], 'ram_bundle::RamBundle::parse_indexed_from_vec': ['ram_bundle'],
     'ram_bundle::ModuleEntry::is_empty': ['ram_bundle'], 'ram_bundle::RamBundleHeader::is_valid_magic': ['ram_bundle'], 'ram_bundle::RAM_BUNDLE_MAGIC': ['ram_bundle'],
-    'utils::find_common_prefix_of_sorted_vec': ['relpath'], 'detector::SourceMapRef::get_url': ['discover'], 'detector::SourceMapRef::get_embedded_sourcemap': ['discover'], 'detector::is_sourcemap_common': ['discover', 'header'], 'detector::locate_sourcemap_reference': ['discover'], 'detector::locate_sourcemap_reference_slice': ['discover'],
+    'utils::find_common_prefix_of_sorted_vec': ['relpath'], 'utils::make_relative_path': ['relpath'], 'detector::SourceMapRef::get_url': ['discover'], 'detector::SourceMapRef::get_embedded_sourcemap': ['discover'], 'detector::is_sourcemap_common': ['discover', 'header'], 'detector::locate_sourcemap_reference': ['discover'], 'detector::locate_sourcemap_reference_slice': ['discover'],
     'sourceview::SourceView::new': ['sourceview'], 'sourceview::SourceView::get_line': ['sourceview'], 'sourceview::SourceView::line_count': ['sourceview'], 'sourceview::SourceView::lines': ['sourceview'],
     'sourceview::Lines::next': ['sourceview'], 'sourceview::SourceView::get_line_slice': ['sourceview'], 'sourceview::SourceView::get_line_slice__body': ['sourceview'],
     'sourceview::SourceView': ['sourceview'], 'sourceview::Lines': ['sourceview'],
